@@ -24,6 +24,11 @@ ANCHORS = {"sorted_array_utils.py": [(347, 378), (410, 444), (471, 511), (543, 5
 EXPLANATION = "exhaustive enumeration of the bounded input lattice against the bisect definition"
 
 
+def _fmt_sizes(sz):
+    d = [v for v in sz if v <= 200]
+    return "1..%d + %s" % (max(d), [v for v in sz if v > 200]) if d and d == list(range(d[0], d[-1] + 1)) else str(sz)
+
+
 def bounds(tier, seed):
     return {"array_len": (1, 5 if tier == "quick" else 6), "queries": (1, 3 if tier == "quick" else 4),
             "float_slices": 5, "integer_offsets": [0, -3], "float_query_multiset": 2 if tier == "quick" else 3}
@@ -80,6 +85,8 @@ def check_search_case(case):
 def replay(case):
     if case.get("kind") == "search-sequence":
         return check_search_sequence(case)
+    if case.get("kind") == "search-long":
+        return check_search_long(case)
     return check_search_case(case)
 
 
@@ -238,6 +245,62 @@ def check_search_sequence(case):
     return fails
 
 
+def make_long_body(size_list, pairs_dense_to):
+    """arrays far longer than the lattice ones: every size of the size alphabet (dense small range, powers of two + 1, the
+    neighbourhood of every integer constant in the code under test), three exactly representable grids; queries: every
+    element / midpoint / beyond-the-ends value ALONE (the scan starts at 0 and has to travel), every PAIR of them on the
+    interesting indices (the second query starts where the first one ended), and all of them in one call"""
+    def body(ctx):
+        S = _impl()
+        m = ctx.choose(size_list, "len")
+        gk = ctx.choose(["uniform", "offset", "gaps"], "grid")
+        fill = ctx.choose([True, False], "fill")
+        xf = A.long_grid(m, gk)
+        xs = np.array(xf)
+        idx = A.interesting_indices(m, dense_to=pairs_dense_to, subpath="sorted_array_utils")
+        pts = {xf[0] - 1.0, xf[-1] + 1.0}
+        for i in idx:
+            pts.add(xf[i])
+            if i + 1 < m:
+                pts.add((xf[i] + xf[i + 1]) / 2)
+                pts.add(xf[i] + (xf[i + 1] - xf[i]) / 4)
+        pts = sorted(pts)
+        qsets = [[v] for v in pts] + [pts]
+        if len(pts) <= 130:
+            qsets += [[a, b] for a, b in itertools.combinations(pts, 2)]
+        else:
+            sub = pts[::max(1, len(pts) // 60)]
+            qsets += [[a, b] for a, b in itertools.combinations(sub, 2)]
+        n = 0
+        for qf in qsets:
+            qa = np.array(qf)
+            for fn in ("lower", "higher", "closest"):
+                if not fill and fn == "closest":
+                    continue
+                got = [int(g) for g in _fast(S, fn, xs, qa, fill)]
+                n += 1
+                exp = _expected(fn, xf, qf, fill)
+                if got != exp:
+                    case = {"kind": "search", "fn": fn, "x": xf, "q": qf, "fill": fill, "as_array": True, "exact": True}
+                    for f in check_search_case(case):
+                        f["detail"] = {"len": m, "grid": gk, "q": qf, "expected": _expected(fn, xf, qf, fill), "observed": got}
+                        ctx.fail(f["clause"], {"kind": "search-long", "fn": fn, "len": m, "grid": gk, "q": qf, "fill": fill}, f["detail"], dict(f["key"], long=True))
+        ctx.call(n)
+        ctx.bulk(n)
+        ctx.outcome(("long", m, gk, fill), nontrivial=m > 1)
+    return body
+
+
+@kind_("search-long")
+def check_search_long(case):
+    xf = A.long_grid(case["len"], case["grid"])
+    fails = check_search_case({"kind": "search", "fn": case["fn"], "x": xf, "q": case["q"], "fill": case["fill"], "as_array": True, "exact": True})
+    for f in fails:
+        f["detail"] = {"len": case["len"], "grid": case["grid"], "q": case["q"]}
+        f["key"] = dict(f["key"], long=True)
+    return fails
+
+
 def harnesses(tier, seed):
     quick = tier == "quick"
     arrays = A.inc_arrays(7, 1, 5 if quick else 6)
@@ -263,6 +326,9 @@ def harnesses(tier, seed):
     hs = [{"name": "same-array-edited-in-place", "body": seq_body},
           {"name": "lattice", "body": make_lattice_body(arrays, queries),
            "bound_text": "arrays<=%d over {0..7}, multisets<=%d over half-lattice" % (5 if quick else 6, 3 if quick else 4)}]
+    long_sizes = A.sizes(36 if quick else 72, 1100 if quick else 70000, subpath="sorted_array_utils")
+    hs.append({"name": "long-arrays", "body": make_long_body(long_sizes, 36 if quick else 48),
+               "bound_text": "sizes %s (dense range, 2^k+1, around every integer constant of the code); single queries, query pairs, full list" % _fmt_sizes(long_sizes)})
     # extension slice (quick: one of 2 array families selected by seed; thorough: both)
     fam = [A.inc_arrays(5, 1, 4), [tuple(2 * v + 1 for v in a) for a in A.inc_arrays(4, 2, 4)]]
     sel = [fam[seed % 2]] if quick else fam
